@@ -582,3 +582,74 @@ pub fn run_c15(report: &mut Report) {
     report.set("rule", "the real agent end to end (fake Junos + fake IRRd) for policy sets of 2-3 managed policies of which 1-2 are valid RPSL but unevaluable (unknown as-set, IRR error answers E / F to the as-set query, PeerAS, AS-path regular expressions, attribute matches), repeated until every evaluation order of the evaluable policies was observed in the IRR query log (or the repeat cap); oracle: exit 0, one commit, every other policy installed with exactly its oracle set, nothing installed for the unevaluable one; distinct = (kind, set size)");
     report.assume("evaluation order is observed (HashMap iteration), not forced");
 }
+
+// ---------------- C01: end-to-end slice through the real agent ----------------
+/// Four consecutive runs of the real agent (create, IRR data changes, steady state, one policy no
+/// longer managed) against fake Junos + fake IRRd; after each successful run the ephemeral instance
+/// must hold exactly the oracle sets. Returns the number of agent runs.
+pub fn c01_slice(report: &mut Report) -> u64 {
+    let uni = universe();
+    let mut runs = 0u64;
+    for variant in [0usize, 3] {
+        let mut model: Model = base_model(variant);
+        let irrd = Irrd::start(model.db.clone());
+        let exprs: Vec<(String, Ex)> = vec![
+            ("pol-set".into(), Ex::AsSet("AS-A".into())),
+            ("pol-as".into(), Ex::AutNum("AS65003".into())),
+            ("pol-rs".into(), Ex::RouteSet("RS-X".into())),
+            ("pol-empty".into(), Ex::AutNum("AS65004".into())),
+            ("pol-v4only".into(), Ex::AutNum("AS65002".into())),
+        ];
+        let mut installed = Instance::default();
+        for round in 0..4 {
+            match round {
+                1 => {
+                    // the IRR data changes: one origin loses its routes, another gains one
+                    _ = model.db.routes4.remove("AS65002");
+                    model.db.routes6.entry("AS65003".into()).or_default().push("2001:db8:f00::/49".into());
+                    model.db.routes4.entry("AS65004".into()).or_default().push("198.51.100.128/25".into());
+                    *irrd.db.lock().unwrap() = model.db.clone();
+                }
+                _ => {}
+            }
+            let managed: Vec<&(String, Ex)> = if round == 3 { exprs.iter().skip(1).collect() } else { exprs.iter().collect() };
+            let running: Vec<RunningStmt> = managed.iter().map(|(n, e)| managed_stmt(n, &e.render())).collect();
+            let scn = Scenario { running, ephemeral: installed.clone(), fault: None, expected_loads: 0, irr_plan: Plan::default() };
+            let rec = run_agent(&scn, &irrd, &format!("C01-{variant}-{round}"));
+            runs += 1;
+            let case = json!({"database_variant": variant, "round": round, "requests_seen": rec.rpcs, "exit_status": rec.exit, "installed_before": installed.render_configuration(), "installed_after": rec.ephemeral_after.render_configuration(), "agent_log_tail": rec.stderr_tail});
+            if rec.exit != Some(0) || rec.commits != 1 {
+                report.violation(&format!("C01:e2e:run-fails:round-{round}"), &format!("run {round} of the end-to-end history failed (exit {:?}, commits {})", rec.exit, rec.commits), case);
+                break;
+            }
+            if round == 2 {
+                let sem = |i: &Instance| i.policies.iter().map(|(n, p)| (n.clone(), p.accepts())).collect::<std::collections::BTreeMap<_, _>>();
+                if sem(&rec.ephemeral_after) != sem(&installed) {
+                    report.violation("C01:e2e:steady-state-run-changes-configuration", "a run with unchanged inputs changed the installed configuration", case.clone());
+                }
+            }
+            installed = rec.ephemeral_after.clone();
+            for (name, ex) in &exprs {
+                let is_managed = managed.iter().any(|(n, _)| n == name);
+                match (installed.policies.get(name), is_managed) {
+                    (Some(_), false) => report.violation("C01:e2e:unmanaged-policy-remains", &format!("round {round}: policy {name} is no longer managed but still installed"), case.clone()),
+                    (None, true) => report.violation("C01:e2e:policy-not-installed", &format!("round {round}: policy {name} is managed and evaluated but not installed"), case.clone()),
+                    (Some(p), true) => {
+                        let want: std::collections::BTreeSet<Pfx> = uni.iter().copied().filter(|q| model.member(ex, *q)).collect();
+                        match p.accepts() {
+                            Ok(acc) => {
+                                let elems: Ranges = acc.v4.iter().chain(acc.v6.iter()).filter_map(|s| { let mut it = s.split(','); Some((Pfx::parse(it.next()?)?, it.next()?.parse().ok()?, it.next()?.parse().ok()?)) }).collect();
+                                if members_of(&elems, &uni) != want {
+                                    report.violation("C01:e2e:not-converged", &format!("round {round}: policy {name} ('{}') does not accept exactly the evaluated set", ex.render()), case.clone());
+                                }
+                            }
+                            Err(why) => report.violation("C01:e2e:irregular-policy", &format!("round {round}: policy {name}: {why}"), case.clone()),
+                        }
+                    }
+                    (None, false) => {}
+                }
+            }
+        }
+    }
+    runs
+}
